@@ -190,7 +190,11 @@ fn run<S: Fl>(ctx: &mut Ctx) {
             let ident: Vec<S> = (0..n * n).map(|i| if i / n == i % n { S::one() } else { zero }).collect();
             let mut cases: Vec<Vec<S>> = vec![ident.clone(), base::<S>(n * n), vec![zero; n * n]];
             for p in 0..n * n {
-                for d in [tiny, S::c(0.25)] { let mut c = ident.clone(); c[p] = c[p] + d; cases.push(c); }
+                // deviations from the identity: far below every tolerance; between the scalar epsilon and the matrices' own
+                // default epsilon 1e-6 (`is_identity`, `is_zero` compare whole matrices: matrix.rs `default_epsilon`);
+                // just above it; large
+                for d in [tiny, S::c(1e-8), S::c(-3e-7), S::c(1e-5), S::c(0.25)] { let mut c = ident.clone(); c[p] = c[p] + d; cases.push(c); }
+                for d in [S::c(1e-8), S::c(1e-5)] { let mut c = vec![zero; n * n]; c[p] = d; cases.push(c); }
                 let mut c = vec![zero; n * n]; c[p] = S::c(0.5); cases.push(c);
                 // all zero but one element that is tiny (still ulps-equal to zero) or negative tiny
                 for d in [tiny, S::c(-1e-20), S::c(1e-300)] { let mut c = vec![zero; n * n]; c[p] = d; cases.push(c); }
@@ -223,13 +227,15 @@ fn run<S: Fl>(ctx: &mut Ctx) {
                 let sym_bits: Vec<bool> = (0..n * n).map(|i| S::ulps_eq(&el(i / n, i % n), &el(i % n, i / n), S::default_epsilon(), S::default_max_ulps())).collect();
                 ctx.pred.rec(m.is_symmetric() == sym_bits.iter().all(|x| *x), || format!("{}<{}>.is_symmetric() {:?}", $kind, S::NAME, c));
                 let _ = writeln!(ctx.mq, "mq n.pred sym {} {} => {}", $kind, sym_bits.iter().map(|x| b(*x)).collect::<Vec<_>>().join(" "), b(m.is_symmetric()));
-                // is_identity: ulps_eq with identity() on every element
-                let id_bits: Vec<bool> = (0..n * n).map(|i| S::ulps_eq(&c[i], &ident[i], S::default_epsilon(), S::default_max_ulps())).collect();
+                // is_identity: ulps_eq! of the whole matrix with identity(): the *matrix* default epsilon (1e-6), every element
+                let meps = <$M<S> as approx::AbsDiffEq>::default_epsilon();
+                let id_bits: Vec<bool> = (0..n * n).map(|i| S::ulps_eq(&c[i], &ident[i], meps, S::default_max_ulps())).collect();
                 ctx.pred.rec(m.is_identity() == id_bits.iter().all(|x| *x), || format!("{}<{}>.is_identity() {:?}", $kind, S::NAME, c));
                 let _ = writeln!(ctx.mq, "mq n.rel {} {} => {}", $kind, id_bits.iter().map(|x| b(*x)).collect::<Vec<_>>().join(" "), b(m.is_identity()));
-                // is_zero: ulps_eq with zero() on every element
-                ctx.pred.rec(m.is_zero() == diag_bits.iter().all(|x| *x), || format!("{}<{}>.is_zero() {:?}", $kind, S::NAME, c));
-                let _ = writeln!(ctx.mq, "mq n.rel {} {} => {}", $kind, diag_bits.iter().map(|x| b(*x)).collect::<Vec<_>>().join(" "), b(m.is_zero()));
+                // is_zero: ulps_eq! of the whole matrix with zero(): matrix default epsilon again
+                let zero_bits: Vec<bool> = (0..n * n).map(|i| S::ulps_eq(&c[i], &zero, meps, S::default_max_ulps())).collect();
+                ctx.pred.rec(m.is_zero() == zero_bits.iter().all(|x| *x), || format!("{}<{}>.is_zero() {:?}", $kind, S::NAME, c));
+                let _ = writeln!(ctx.mq, "mq n.rel {} {} => {}", $kind, zero_bits.iter().map(|x| b(*x)).collect::<Vec<_>>().join(" "), b(m.is_zero()));
                 // is_invertible: determinant not ulps_eq 0
                 let det = m.determinant();
                 ctx.pred.rec(m.is_invertible() == !S::ulps_eq(&det, &zero, S::default_epsilon(), S::default_max_ulps()),
